@@ -751,6 +751,27 @@ pub fn skeletons() -> Vec<Case> {
             &[],
         ),
         mk("empty-root", &[("a", 1, &["b *"]), ("a", 2, &[]), ("b", 1, &[])], &[], &[]),
+        // a transitive choice (c) that can rule out the best candidate of a direct requirement (b):
+        // c=3 fails deep (d and e disagree about f), c=2 constrains b away from b=3, c=1 is harmless
+        mk(
+            "direct-vs-transitive",
+            &[
+                ("a", 2, &["c *", "f *"]),
+                ("a", 1, &[]),
+                ("b", 3, &[]),
+                ("b", 2, &[]),
+                ("b", 1, &[]),
+                ("c", 3, &["d *", "e *"]),
+                ("c", 2, &["!b 1|2"]),
+                ("c", 1, &[]),
+                ("d", 1, &["!f 2"]),
+                ("e", 1, &["!f 1"]),
+                ("f", 2, &[]),
+                ("f", 1, &[]),
+            ],
+            &["a *", "b *"],
+            &[],
+        ),
         // exercises learning: the pubgrub-article style backtracking chain
         mk(
             "backtrack-chain",
@@ -986,5 +1007,156 @@ pub fn f5_filter(c: &Case, d: &Deco) -> bool {
         Deco::AddReq(Src::Solv(s), v) | Deco::AddCons(Src::Solv(s), v) => is_z_solv(s) != vs_is_z(v) && !matches!(v, VsSpec::Missing),
         Deco::AddReq(Src::Root, _) | Deco::AddCons(Src::Root, _) => false,
         Deco::AddUnion(..) => false,
+    }
+}
+
+// ---------------------------------------------------------------------------
+// F8: direct / transitive interference (C08)
+// ---------------------------------------------------------------------------
+
+/// Root requires a and b (b: 3 versions, no dependencies). a's versions require c (3 versions) and f.
+/// Every c version independently gets one behaviour: nothing, the conflict gadget (requires d and e,
+/// which constrain f to different versions), or a constrains entry on b (each proper non-empty subset
+/// of b's versions). b's preference order ranges over all 6 permutations, a has 1 or 2 versions.
+pub struct F8;
+
+impl F8 {
+    const C_OPTS: u64 = 8; // 0 nothing, 1 gadget, 2..7 constrains b to mask 1..6
+}
+
+impl Family for F8 {
+    fn name(&self) -> String {
+        "F8 direct/transitive interference".into()
+    }
+    fn len(&self) -> u64 {
+        Self::C_OPTS.pow(3) * 6 * 2 * 6
+    }
+    fn get(&self, mut idx: u64) -> Case {
+        let mut take = |n: u64| {
+            let r = idx % n;
+            idx /= n;
+            r
+        };
+        let copt: Vec<u64> = (0..3).map(|_| take(Self::C_OPTS)).collect();
+        let bperm = take(6);
+        let a_versions = 1 + take(2);
+        let cperm = take(6);
+        let mut u = Universe::default();
+        let a = u.add_name("a");
+        let b = u.add_name("b");
+        let c = u.add_name("c");
+        let d = u.add_name("d");
+        let e = u.add_name("e");
+        let f = u.add_name("f");
+        let av: Vec<Id> = (1..=a_versions as u32).map(|v| u.add_solv(a, v)).collect();
+        let bv: Vec<Id> = (1..=3).map(|v| u.add_solv(b, v)).collect();
+        let cv: Vec<Id> = (1..=3).map(|v| u.add_solv(c, v)).collect();
+        let d1 = u.add_solv(d, 1);
+        let e1 = u.add_solv(e, 1);
+        let f1 = u.add_solv(f, 1);
+        let f2 = u.add_solv(f, 2);
+        let perms: [[usize; 3]; 6] = [[0, 1, 2], [0, 2, 1], [1, 0, 2], [1, 2, 0], [2, 0, 1], [2, 1, 0]];
+        let bp = perms[bperm as usize];
+        u.set_order(&[bv[bp[0]], bv[bp[1]], bv[bp[2]]]);
+        let cp = perms[cperm as usize];
+        u.set_order(&[cv[cp[0]], cv[cp[1]], cv[cp[2]]]);
+        let a_all = u.add_vset(a, &av);
+        let b_all = u.add_vset(b, &bv);
+        let c_all = u.add_vset(c, &cv);
+        let d_all = u.add_vset(d, &[d1]);
+        let e_all = u.add_vset(e, &[e1]);
+        let f_all = u.add_vset(f, &[f1, f2]);
+        let f_1 = u.add_vset(f, &[f1]);
+        let f_2 = u.add_vset(f, &[f2]);
+        u.solvs[d1 as usize].deps.push_con(f_2);
+        u.solvs[e1 as usize].deps.push_con(f_1);
+        // the most preferred a requires c and f, a second version (if any) requires nothing
+        let a_top = *av.last().unwrap();
+        u.solvs[a_top as usize].deps.push_req(Req::Single(c_all));
+        u.solvs[a_top as usize].deps.push_req(Req::Single(f_all));
+        for (i, &o) in copt.iter().enumerate() {
+            let s = cv[i] as usize;
+            match o {
+                0 => {}
+                1 => {
+                    u.solvs[s].deps.push_req(Req::Single(d_all));
+                    u.solvs[s].deps.push_req(Req::Single(e_all));
+                }
+                m => {
+                    let mask = m - 1; // 1..=6: proper non-empty subsets of b's versions
+                    let members: Vec<Id> = (0..3).filter(|k| mask & (1 << k) != 0).map(|k| bv[k]).collect();
+                    let vs = u.vset(b, &members);
+                    u.solvs[s].deps.push_con(vs);
+                }
+            }
+        }
+        let p = Problem {
+            reqs: vec![Req::Single(a_all), Req::Single(b_all)],
+            cons: vec![],
+            soft: vec![],
+        };
+        Case { u, p, tag: format!("F8#{}", copt.iter().map(|x| x.to_string()).collect::<Vec<_>>().join("")) }
+    }
+}
+
+// ---------------------------------------------------------------------------
+// F9: layered 3x2 with requirement-or-constrains slots and back edges
+// ---------------------------------------------------------------------------
+
+/// names a, b, c x versions {1, 2}. Forward slots (a_i -> c, b_i -> c and, when `wide`, a_i -> b)
+/// take one of {nothing, requires {1}, requires {2}, requires {1,2}, constrains {1}, constrains {2}};
+/// back slots (c_i -> a, c_i -> b) take one of {nothing, requires {1}, requires {2}, requires {1,2}}.
+/// Root requires a and b (and, for the second root, c as well).
+pub struct F9 {
+    pub wide: bool,
+}
+
+impl F9 {
+    fn slots(&self) -> Vec<(usize, usize, usize, u64)> {
+        // (source name, source version, destination name, number of options)
+        let mut v = vec![];
+        for ver in 1..=2 {
+            if self.wide {
+                v.push((0, ver, 1, 6));
+            }
+            v.push((0, ver, 2, 6));
+            v.push((1, ver, 2, 6));
+            v.push((2, ver, 0, 4));
+            v.push((2, ver, 1, 4));
+        }
+        v
+    }
+}
+
+impl Family for F9 {
+    fn name(&self) -> String {
+        format!("F9 layered 3x2 with requires/constrains slots and back edges{}", if self.wide { " (wide)" } else { "" })
+    }
+    fn len(&self) -> u64 {
+        2 * self.slots().iter().map(|s| s.3).product::<u64>()
+    }
+    fn get(&self, mut idx: u64) -> Case {
+        let g = Grid::f1();
+        let mut u = g.base();
+        let root3 = idx % 2 == 1;
+        idx /= 2;
+        for (sn, sv, dn, n) in self.slots() {
+            let o = idx % n;
+            idx /= n;
+            let s = g.solv_id(sn, sv) as usize;
+            match o {
+                0 => {}
+                1..=3 => u.solvs[s].deps.push_req(Req::Single(g.vs_id(dn, o as u32))),
+                4 => u.solvs[s].deps.push_con(g.vs_id(dn, 1)),
+                _ => u.solvs[s].deps.push_con(g.vs_id(dn, 2)),
+            }
+        }
+        let mut p = Problem::default();
+        p.reqs.push(Req::Single(g.vs_id(0, 3)));
+        p.reqs.push(Req::Single(g.vs_id(1, 3)));
+        if root3 {
+            p.reqs.push(Req::Single(g.vs_id(2, 3)));
+        }
+        Case { u, p, tag: "F9".into() }
     }
 }
